@@ -146,6 +146,58 @@ func runLineAfter(ti, to jsonline.Template, before, line []byte) (*recWriter, er
 	return w, err, pan
 }
 
+// emitLineBatch: `line` cases whose implementation side is ONE importer and ONE exporter fed with all the lines
+// in turn (what jl does for a stream); the model and the oracle judge every line on its own, so anything a
+// line inherits from the lines before it — after an error, on the Nth use, after a particular value — shows as
+// a difference. Lines that are blank or hold a line feed are left out (they are not one scanned line).
+func emitLineBatch(cw *caseWriter, prop string, ti, to []colDesc, lines [][]byte) {
+	var keep [][]byte
+	for _, l := range lines {
+		if len(bytes.TrimSpace(l)) == 0 || bytes.ContainsAny(l, "\n") || bytes.HasSuffix(l, []byte("\r")) {
+			continue
+		}
+		keep = append(keep, l)
+	}
+	if len(keep) < 2 {
+		return
+	}
+	var in bytes.Buffer
+	for _, l := range keep {
+		in.Write(l)
+		in.WriteByte('\n')
+	}
+	w := &recWriter{failAt: -1}
+	var imp jsonline.Importer
+	var exp jsonline.Exporter
+	if p := guard(func() { imp = buildTemplate(ti).GetImporter(&in); exp = buildTemplate(to).GetExporter(w) }); p != "" {
+		return
+	}
+	for i, l := range keep {
+		w.writes = nil
+		var err error
+		pan := guard(func() {
+			if !imp.Import() {
+				err = fmt.Errorf("no line scanned")
+				return
+			}
+			var row jsonline.Row
+			row, err = imp.GetRow()
+			if err != nil {
+				return
+			}
+			err = exp.Export(row)
+		})
+		ext := map[string]string{}
+		extForJSON(l, ext)
+		out := lineOutcome(w, err, pan)
+		cw.count("line-batch:" + strings.SplitN(out, " ", 3)[0])
+		cw.emit(fmt.Sprintf("%s batch#%d of %d | %s | %s | %s", prop, i, len(keep), descStr(ti), descStr(to), string(l)), true, "line", prop, descStr(ti), descStr(to), hxs(string(l)), extStr(ext), out)
+		if pan != "" {
+			return
+		}
+	}
+}
+
 // emitLineAfter: a `line` case whose implementation side ran after another line on the same importer and
 // exporter; the model and the oracle judge the line on its own.
 func emitLineAfter(cw *caseWriter, prop string, ti, to []colDesc, before, line []byte) string {
@@ -551,6 +603,13 @@ func genC01(cw *caseWriter, seed uint64, tier string) {
 		line := []byte(randObject(r, to, true))
 		out := emitLine(cw, "C01", ti, to, line, false)
 		_ = nontriv(out)
+		if r.chance(1, 6) {
+			batch := [][]byte{line}
+			for k := 2 + r.intn(6); k > 0; k-- {
+				batch = append(batch, []byte(randObject(r, to, true)))
+			}
+			emitLineBatch(cw, "C01", ti, to, batch)
+		}
 	}
 	for i := 0; i < n/2; i++ {
 		to := randCols(r, 0, true, true)
@@ -768,6 +827,36 @@ func genC03(cw *caseWriter, seed uint64, tier string) {
 		emitLine(cw, "C03", nil, dupCols, []byte(l), true)
 		emitText(cw, "C03", dupCols, []byte(l), true)
 	}
+	// wide templates and wide inputs: column and key counts past the sizes where a container might change its
+	// representation (8, 16, 32, 64, 128)
+	for _, nc := range []int{8, 9, 16, 17, 32, 33, 64, 65, 128, 130} {
+		var wide []colDesc
+		for i := 0; i < nc; i++ {
+			f := "auto"
+			switch i % 7 {
+			case 3:
+				f = "hidden"
+			case 5:
+				f = "string"
+			}
+			wide = append(wide, colDesc{name: fmt.Sprintf("c%03d", (i*37)%nc), format: f, ty: "none"})
+		}
+		var parts []string
+		for _, k := range r.perm(nc + 20) {
+			if k%11 == 10 {
+				continue // a missing key now and then
+			}
+			name := fmt.Sprintf("c%03d", k)
+			if k >= nc {
+				name = fmt.Sprintf("x%02d", k-nc)
+			}
+			parts = append(parts, `"`+name+`":`+pick(r, orderValues))
+		}
+		l := []byte("{" + strings.Join(parts, ",") + "}")
+		emitLine(cw, "C03", wide, wide, l, true)
+		emitLine(cw, "C03", nil, wide, l, true)
+		emitLine(cw, "C03", nil, nil, l, true)
+	}
 	orderDups = true
 	defer func() { orderDups = false }()
 	n := 4000
@@ -792,6 +881,13 @@ func genC03(cw *caseWriter, seed uint64, tier string) {
 			emitLine(cw, "C03", rev, to, line, true)
 		}
 		emitLine(cw, "C03", ti, to, line, true)
+		if r.chance(1, 6) {
+			batch := [][]byte{line}
+			for k := 2 + r.intn(6); k > 0; k-- {
+				batch = append(batch, []byte(orderObject(r, ti, true)))
+			}
+			emitLineBatch(cw, "C03", ti, to, batch)
+		}
 		if r.chance(1, 3) {
 			emitText(cw, "C03", to, line, r.chance(1, 2))
 		}
@@ -828,6 +924,18 @@ func genC04(cw *caseWriter, seed uint64, tier string) {
 	for rep := 0; rep < reps; rep++ {
 		for _, fo := range fmtNames {
 			for _, to := range tyNames {
+				if r.chance(1, 3) {
+					// the same column pair fed with every scalar text in turn through ONE importer and ONE exporter
+					fi, tyi := pick(r, fmtNames), pick(r, tyNames)
+					if r.chance(1, 2) {
+						fi, tyi = "auto", "none"
+					}
+					var batch [][]byte
+					for _, k := range r.perm(len(scalarTexts)) {
+						batch = append(batch, []byte(`{"c":`+scalarTexts[k]+`}`))
+					}
+					emitLineBatch(cw, "C04", []colDesc{{name: "c", format: fi, ty: tyi}}, []colDesc{{name: "c", format: fo, ty: to}}, batch)
+				}
 				for _, txt := range scalarTexts {
 					fi, tyi := "auto", "none"
 					if rep > 0 || r.chance(1, 2) {
